@@ -23,7 +23,8 @@ def parseOutcome (j : Json) : Except String Outcome := do
   let val ← match j.getObjVal? "val" with
     | .ok v => parseVal v
     | .error _ => pure .other
-  pure ⟨failed, isExc, ty, text, val⟩
+  let strRaises := match j.getObjVal? "strRaises" with | .ok (.bool b) => b | _ => false
+  pure ⟨failed, isExc, ty, text, val, strRaises⟩
 
 /-- an oracle from a table [[expr, outcome], ...]; an expression not in the table was never evaluated by the
     harness — answer with a recognisable marker so that a model that asks for it disagrees visibly. -/
@@ -34,7 +35,7 @@ def parseOracle (j : Json) (k : String) : Except String (String → Outcome) := 
     pure (e, o))
   pure (fun e => match rows.lookup e with
     | some o => o
-    | none => ⟨true, true, "<not-in-oracle-table>", "<not-in-oracle-table>", .other⟩)
+    | none => ⟨true, true, "<not-in-oracle-table>", "<not-in-oracle-table>", .other, false⟩)
 
 def optStrJ (o : Option String) : Json := match o with | none => Json.null | some s => Json.str s
 
